@@ -156,6 +156,42 @@ HAND = {
     def upPz():
       s.pz @= concat(s.p.a, s.p.b)
 ''',
+  'hand:FuncShared': '''
+    s.in_ = InPort(Bits8); s.o1 = OutPort(Bits8); s.o2 = OutPort(Bits8); s.o3 = OutPort(Bits8); s.a = Wire(Bits8); s.b = Wire(Bits8)
+    @s.func
+    def mix(v): return (s.a ^ 0x3c) + v
+    @s.func
+    def deep(v): return mix(v) + s.b
+    @update
+    def up_3(): s.o3 @= deep(s.in_)
+    @update
+    def up_2(): s.o2 @= mix(s.in_) + 1
+    @update
+    def up_1(): s.o1 @= mix(Bits8(1))
+    @update
+    def up_b(): s.b @= s.a + 1
+    @update
+    def up_a(): s.a @= s.in_ + 1
+''',
+  'hand:FuncWrites': '''
+    s.in_ = InPort(Bits8); s.o1 = OutPort(Bits8); s.o2 = OutPort(Bits8); s.a = Wire(Bits8); s.b = Wire(Bits8); s.c = Wire(Bits8)
+    @s.func
+    def base(v): return v + s.c
+    @s.func
+    def set_a(v): s.a @= base(v)
+    @s.func
+    def set_b(v): s.b @= base(v) ^ 0x55
+    @update
+    def up_o1(): s.o1 @= s.a + s.b
+    @update
+    def up_o2(): s.o2 @= s.b
+    @update
+    def up_wa(): set_a(s.in_)
+    @update
+    def up_wb(): set_b(s.in_ + 1)
+    @update
+    def up_c(): s.c @= s.in_ ^ 0x0f
+''',
   'hand:NameClash': None,   # built below: many blocks whose names are prefixes of each other
 }
 
